@@ -356,7 +356,20 @@ fn gen_script(t: &mut Tape, served_len: usize) -> Script {
     let body_other: Vec<u8> = match kind {
         "json_other" => t.pick(JSON_OTHER).as_bytes().to_vec(),
         "garbage" => {
-            if t.chance(30) {
+            if t.chance(25) {
+                // well-formed JSON text except for bytes that are not UTF-8 inside a string (a Latin-1
+                // reply), or a byte-order mark in front: neither is JSON
+                let v: &[&[u8]] = &[
+                    b"{\"data\":{\"__schema\":{\"queryType\":{\"name\":\"Q\"},\"types\":[{\"kind\":\"SCALAR\",\"name\":\"S\",\"description\":\"caf\xE9\"}]}}}",
+                    b"{\"data\":{\"__schema\":{\"queryType\":{\"name\":\"Q\"},\"types\":[]}},\"extensions\":{\"note\":\"\xFF\xFE bad\"}}",
+                    b"\xEF\xBB\xBF{\"data\":{\"__schema\":{\"queryType\":{\"name\":\"Q\"},\"types\":[]}}}",
+                    b"{\"data\":{\"__schema\":{\"queryType\":{\"name\":\"Q\\uD800\"},\"types\":[]}}}",
+                    b"{\"data\":{\"__schema\":{\"queryType\":{\"name\":\"\xC3\"},\"types\":[]}}}",
+                ];
+                let b = t.pick(v).to_vec();
+                debug_assert!(serde_json::from_slice::<Value>(&b).is_err());
+                b
+            } else if t.chance(30) {
                 let n = t.range(1, 40);
                 let mut b: Vec<u8> = (0..n).map(|_| t.byte()).collect();
                 if serde_json::from_slice::<Value>(&b).is_ok() {
@@ -369,7 +382,7 @@ fn gen_script(t: &mut Tape, served_len: usize) -> Script {
         }
         _ => Vec::new(),
     };
-    let content_type = t.pick(&[Some("application/json"), Some("application/json; charset=utf-8"), Some("application/graphql-response+json"), Some("text/plain"), Some("text/html; charset=utf-8"), None]).map(|s| s.to_string());
+    let content_type = t.pick(&[Some("application/json"), Some("application/json; charset=utf-8"), Some("application/graphql-response+json"), Some("text/plain"), Some("text/html; charset=utf-8"), None, Some("application/json; charset=iso-8859-1"), Some("application/json;charset=UTF-16"), Some("text/plain; charset=windows-1252")]).map(|s| s.to_string());
     let mut framing = [Framing::ContentLength, Framing::Close, Framing::Chunked][t.weighted(&[70, 15, 15])];
     let body_len = if kind == "served_json" { served_len } else { body_other.len() };
     let cut_kind = t.weighted(&[84, 7, 9]);
